@@ -432,7 +432,7 @@ def _step_info(rng, L: Lang11, W, n, mode=None):
 def derive_task(rng: random.Random, L: Lang11, W, penultimate=True, dag=None, max_steps=7):
     """Sub-sample a task from W's own graph: every step comes from a concept node, every
     from-edge of the task follows the node's dependencies."""
-    dag = rng.random() < 0.35 if dag is None else dag
+    dag = rng.random() < 0.45 if dag is None else dag
     steps, origin, memo = {}, {}, {}
     cnt = itertools.count()
 
@@ -468,7 +468,9 @@ def derive_task(rng: random.Random, L: Lang11, W, penultimate=True, dag=None, ma
         # share steps: a step may precede several others as long as its node is a
         # dependency of theirs (DAG-shaped tasks)
         ids = list(steps)
-        for _ in range(rng.choice([1, 1, 2, 3])):
+        want, tries = rng.choice([1, 1, 2, 3]), 0
+        while want and tries < 12:
+            tries += 1
             p, c = rng.choice(ids), rng.choice(ids)
             if p == c or c in steps[p]["from"] or c == o:
                 continue
@@ -476,6 +478,8 @@ def derive_task(rng: random.Random, L: Lang11, W, penultimate=True, dag=None, ma
                 steps[p]["from"].append(c)
                 if not acyclic(T):
                     steps[p]["from"].pop()
+                else:
+                    want -= 1
     return T if acyclic(T) else derive_task(rng, L, W, penultimate, False, max_steps)
 
 
@@ -1757,7 +1761,7 @@ def case_payload(L, Ws, case, ob=None, wi=None):
     return p
 
 
-MODEL_FILES = ["Query/Bgp.v", "Query/Gen.v", "Query/GenProofs.v", "Query/Spec.v", "Query/Assign.v",
+MODEL_FILES = ["Query/Bgp.v", "Query/Gen.v", "Query/GenProofs.v", "Query/Spec.v", "Query/Assign.v", "Query/TaskSpec.v",
                "Query/Check.v"]
 
 
@@ -1794,7 +1798,7 @@ def main(tier: str, seed: int, replay: str | None = None) -> int:
     elif tier == "quick":
         world = build_world(rng, 16, 3, 3, stats)
     else:
-        world = build_world(rng, 150, 3, 5, stats)
+        world = build_world(rng, 125, 3, 5, stats)
     if replay:
         # a replay is diagnostic: keep the evidence of the last full run
         ev = C.EVID / f"{PID}.json"
@@ -1892,7 +1896,13 @@ def run(rep, world, stats, tier, rng) -> int:
             for b in inv[wi]:
                 stats["graph_invariant_broken:" + b] += 1
             stats["graph_okb:%d" % okb[wi]] += 1
-            if bool(okb[wi]) != (not inv[wi]):
+            covered = [b for b in inv[wi] if b != "depends-is-not-closure-of-from"]
+            if "depends-is-not-closure-of-from" in inv[wi]:
+                viol(f"depends_{li}_{wi}", {"kind": "oracle", "language": L.to_json(), "workflow": W.text,
+                    "workflows": [W.recipe], "what": "tf:depends is not the transitive closure of tf:from in "
+                    "a generated graph (property C09), so precedes-links are tested against the wrong relation"},
+                    has_input=False, signature="depends-is-not-the-closure-of-from(C09)")
+            if bool(okb[wi]) != (not covered):
                 viol(f"graphok_{li}_{wi}", {"kind": "correspondence", "language": L.to_json(),
                     "workflow": W.text, "recipe": W.recipe, "python_invariants_broken": inv[wi],
                     "coq_graph_okb": okb[wi],
@@ -2121,8 +2131,11 @@ def run(rep, world, stats, tier, rng) -> int:
         "membership triples cover via/subtypeOf, subtypeOf lists all canonical supertypes, depends is the "
         "closure of from (C07, C09, C12)",
         "skip_same_branch_matches (FILTER NOT EXISTS) is outside the modelled fragment",
-        "task graph -> variables for DAG-shaped tasks is tested per instance (the model's skeleton is "
-        "checked complete), proved for the worklist on every acyclic skeleton",
+        "the model is given each task in the order the implementation's store lists its triples (rdflib's "
+        "set order decides variable numbering and Bag insertion order); that the stored task is the task "
+        "that was written (URIs / nested list / string shortcuts) is checked separately",
+        "with unfold_tree the steps of the specification are the paths from the outputs (one variable "
+        "per visit); C11_task_spec (steps = step nodes) is stated for unfold_tree off",
         "model/implementation agreement is tested, not proved"]
     return rep.finish(C.TRUSTED)
 
